@@ -4,5 +4,7 @@ set -e
 B=$(mktemp -d /var/tmp/psbase.XXXXXX)
 trap 'rm -rf "$B"' EXIT
 cmake -G Ninja -S /repo -B "$B" -DCMAKE_BUILD_TYPE=RelWithDebInfo -DCMAKE_CXX_FLAGS=-Wno-error > "$B/cmake.log" 2>&1 || { tail -20 "$B/cmake.log"; exit 1; }
-cmake --build "$B" > "$B/build.log" 2>&1 || { tail -40 "$B/build.log"; exit 1; }
+# the C wrapper library fails -Werror on the pinned tree too (volatile register asm); the test binaries do not need it
+cmake --build "$B" -- -k 0 > "$B/build.log" 2>&1 || true
+for t in photospline-test photospline-test-templated photospline-test-fit; do [ -x "$B/$t" ] || { echo "test binary $t was not built"; grep -n "error" "$B/build.log" | head; exit 1; }; done
 ctest --test-dir "$B" -j8 --timeout 900
